@@ -97,6 +97,29 @@ fn c01_union_over_aligned_second() {
 }
 
 #[test]
+fn c12_union_of_zero_sized_and_over_aligned_payloads() {
+    // a zero-sized second payload: the value address is one past the end of the block
+    let u: ArcUnion<u32, ()> = ArcUnion::from_second(Arc::new(()));
+    let u2 = u.clone();
+    assert!(u.is_second() && u.as_second().is_some() && u.as_first().is_none());
+    assert!(u == u2);
+    drop(u);
+    drop(u2);
+    let z: ArcUnion<Zst, Zst> = ArcUnion::from_second(Arc::new(Zst));
+    let z1: ArcUnion<Zst, Zst> = ArcUnion::from_first(Arc::new(Zst));
+    assert!(z.is_second() && z1.is_first() && z != z1);
+    #[repr(align(64))]
+    struct BigZ;
+    let b: ArcUnion<u8, BigZ> = ArcUnion::from_second(Arc::new(BigZ));
+    assert!(b.is_second());
+    let c = b.clone();
+    drop(b);
+    drop(c);
+    let d: ArcUnion<D, D> = ArcUnion::from_second(Arc::new(D(1)));
+    assert_eq!(d.as_second().map(|x| x.0), Some(1));
+}
+
+#[test]
 fn c04_with_callbacks_leave_counts_alone() {
     let a = Arc::new(D(5));
     let r = a.with_raw_offset_arc(|o| {
@@ -301,6 +324,8 @@ fn c08_copy_on_write() {
     let z = Arc::new(Zst);
     let mut z2 = z.clone();
     let _ = Arc::make_mut(&mut z2);
+    // a shared zero-sized value is copied like any other: each handle ends up alone
+    assert!(Arc::count(&z) == 1 && Arc::count(&z2) == 1 && !Arc::ptr_eq(&z, &z2));
 }
 
 // the other owner is released during the payload's Clone (what another thread could do at that point) and the old
